@@ -522,6 +522,7 @@ impl<'a, 'b> GeneratorState<'a> {
         // Compare instruction
         let signed;
         let cmp;
+        let mut acc_flags_ok = true;
         self.carry_flag_ok = false;
         match left {
             ExprType::Absolute(a, eight_bits, b) => {
@@ -569,6 +570,7 @@ impl<'a, 'b> GeneratorState<'a> {
                 cmp = true;
                 signed = *sign;
                 self.acc_in_use = false;
+                acc_flags_ok = self.flags == FlagsState::A;
                 self.flags = FlagsState::A;
             }
             ExprType::Tmp(sign) => {
@@ -703,7 +705,10 @@ impl<'a, 'b> GeneratorState<'a> {
                         self.asm(CMP, right, pos, false)?;
                         self.flags = FlagsState::Unknown;
                     } else {
-                        // No CMP
+                        // No CMP, unless the accumulator was handed over without the flags being known to reflect it
+                        if !acc_flags_ok {
+                            self.asm(CMP, right, pos, false)?;
+                        }
                         if self.saved_y {
                             return Err(self
                                 .compiler_state
